@@ -38,6 +38,14 @@ Expected(e) ==
       [] e.op = "ew3" -> Lift3(e.code, e.a, e.b, e.c)
       [] e.op = "map" -> MapExp(e)
       [] e.op = "ctor_v" -> CtorExp(e)
+      [] e.op = "conv" -> Conv(e.how, e.m, e.input, e.s)
+      [] e.op = "mat_resize" -> ResizeT(e.a, e.m)
+      [] e.op = "swz" -> Swizzle(e.how, e.input, e.s)
+      [] e.op = "named" -> IF e.ty \in {"Rgb", "Rgba"} THEN NamedColor(e.how, IF e.ty = "Rgb" THEN 3 ELSE 4) ELSE NamedVec(e.how, DimOf(e.ty))
+      [] e.op = "shuf" -> Shuffle(e.how, e.lo, e.hi, e.idx)
+      [] e.op = "full" -> FullStr(e.bits, e.signed)
+      \* inverted_rgb on values: r -> full - v, g = 0 -> full, b = full -> 0, alpha kept, and it is an involution
+      [] e.op = "invert" -> [off |-> <<atoi(e.v), 0>>, b |-> "0", a |-> "5", back |-> 1]
       [] e.op = "cmp" -> CmpMask(e.which, e.a, e.b)
       [] e.op = "minmax" -> MinMax(e.which, e.a, e.b)
       [] e.op = "reduce_i" -> ReduceI(e.which, e.a)
@@ -50,7 +58,9 @@ Expected(e) ==
 Extra(e) == e.op = "real1" /\ e.which \in {"sqrt", "rsqrt"} =>
                 \A i \in 1 .. Len(e.a) : LET r == IF e.which = "sqrt" THEN e.obs[i] ELSE QInv(e.obs[i])
                                          IN QMul(r, r) = e.a[i] /\ r[1] > 0
-Conforms(e) == e.pan = 0 /\ e.obs = Expected(e) /\ Extra(e)
+\* named direction constants may be built as the negation of a unit vector: -0 and 0 denote the same element
+NormNeg(v) == [i \in 1 .. Len(v) |-> IF v[i] = TOp1(CNEG, TZero) THEN TZero ELSE v[i]]
+Conforms(e) == e.pan = 0 /\ (IF e.op = "named" THEN NormNeg(e.obs) ELSE e.obs) = Expected(e) /\ Extra(e)
 
 Init == l = 1
 Step(name) ==
@@ -70,7 +80,14 @@ ArithIA == Step("arith_i")
 Fold == Step("fold")
 FoldV == Step("foldv")
 Real1A == Step("real1")
-Next == Ew1 \/ Ew2 \/ Ew3 \/ MapA \/ CtorV \/ CmpA \/ MinMaxA \/ ReduceIA \/ ArithIA \/ Fold \/ FoldV \/ Real1A
+ConvA == Step("conv")
+MatResize == Step("mat_resize")
+Swz == Step("swz")
+Named == Step("named")
+Shuf == Step("shuf")
+FullA == Step("full")
+Invert == Step("invert")
+Next == ConvA \/ MatResize \/ Swz \/ Named \/ Shuf \/ FullA \/ Invert \/ Ew1 \/ Ew2 \/ Ew3 \/ MapA \/ CtorV \/ CmpA \/ MinMaxA \/ ReduceIA \/ ArithIA \/ Fold \/ FoldV \/ Real1A
 Accepted == IF TLCGet("stats").diameter - 1 = Len(Rec) THEN TRUE
             ELSE PrintT(ToJson([tag |-> "REJECTED_AT", l |-> TLCGet("stats").diameter])) /\ FALSE
 =============================================================================
